@@ -39,6 +39,18 @@ package polyjson
 // wrapper-node-inside, single-operand-node-with-flags-or-bounds,
 // several-operands-without-join-flag).
 //
+// A further part of the records (c15EscRecord) has, in one to three of its text
+// fields or map keys, text made of the characters the JSON form has to escape
+// and of text that LOOKS like such an escape: a literal backslash in front of
+// u003c, u003e, u0026 (what encoding/json writes for <, >, &), in front of n, t,
+// a double quote, another backslash, at the end of the text; the characters <,
+// >, & themselves, quotes, tab, newline and the other control characters,
+// U+2028 and U+2029. Every text must come back as written (classes
+// text-with-backslash-escape-lookalike, text-with-backslash,
+// text-with-json-escaped-characters, by what the texts put in contain). The
+// same words are put into generated GenBank and GFF text for the two
+// conversion clauses.
+//
 // Besides single round trips on a path there are HISTORIES on one path: three
 // different documents are written to the same path one after the other and the
 // path is read after every write; each Read must give the document written
@@ -515,6 +527,192 @@ func c15NameRecord(rng *rand.Rand, i int) (*poly.Sequence, string) {
 	return s, fmt.Sprintf("Name-text record #%d: %d features, sequence length %d; %s; %s", i, len(s.Features), len(s.Sequence), strings.Join(where, ", "), strings.Join(ints, ", "))
 }
 
+// ------------------------------------- text that JSON has to escape ----
+
+// literal backslash directly in front of u003c / u003e / u0026: the text of the
+// escapes that encoding/json writes for <, > and &
+var c15EscLookalike = []string{`\u003c`, `\u003e`, `\u0026`, `\u003C`, `\u003E`, `\\u003c`, `\\\u0026`, `x\u003cy\u003e`, `\u003c\u003e\u0026`, `wrote \u003c for "<" and \u0026 for "&"`}
+
+// literal backslash in front of anything else, and at the end of the text
+var c15EscBackslash = []string{`\`, `\\`, `\\\`, `\n`, `\t`, `\r`, `\"`, `\\"`, `\/`, `\b`, `\f`, `\u`, `\u00`, `\u0000`, `\u2028`, `\u003`, `\u003d`, `\x3c`, `\U0000003C`, `C:\dir\file`, `\'`, `end\`}
+
+// the characters that the JSON form escapes, and markup made of them
+var c15EscChars = []string{"<", ">", "&", "<1..>206", "&amp;", "&lt;b&gt;", "<b>&</b>", "</script>", `"`, `""`, `'`, "say \"hi\"", "\t", "\n", "\r\n", "\x00", "\x01", "\x08", "\x0c", "\x1b", "\x1f", "\x7f", "\u0085", "\u2028", "\u2029"}
+
+// neighbours that need no escape (among them the escape texts without their backslash)
+var c15EscPlain = []string{"lacZ", "gene", "", " ", "u003c", "u0026", "003e", "n", "\u03b2", "caf\u00e9"}
+
+var c15EscLookalikeRe = regexp.MustCompile(`(?i)\\u00(3c|3e|26)`)
+
+// c15EscClass names the shape of a set of texts: the first of the three kinds
+// that any of them contains.
+func c15EscClass(texts []string) string {
+	class := "text-with-json-escaped-characters"
+	for _, s := range texts {
+		if c15EscLookalikeRe.MatchString(s) {
+			return "text-with-backslash-escape-lookalike"
+		}
+		if strings.Contains(s, `\`) {
+			class = "text-with-backslash"
+		}
+	}
+	return class
+}
+
+// c15EscText draws a text of 1..4 pieces in random order, joined with nothing
+// or one blank. variant 0: one piece with a backslash in front of u003c / u003e
+// / u0026 and up to three pieces of any kind; 1: one piece with a backslash in
+// front of something else and up to three pieces without the first kind; 2: one
+// piece of characters that JSON escapes and up to three pieces without any
+// backslash; 3: 1..4 pieces of any kind.
+func c15EscText(rng *rand.Rand, variant int) string {
+	pick := func(pools ...[]string) string {
+		p := pools[rng.Intn(len(pools))]
+		return p[rng.Intn(len(p))]
+	}
+	var pieces []string
+	extra := rng.Intn(4)
+	switch variant {
+	case 0:
+		pieces = append(pieces, pick(c15EscLookalike))
+		for k := 0; k < extra; k++ {
+			pieces = append(pieces, pick(c15EscLookalike, c15EscBackslash, c15EscChars, c15EscPlain))
+		}
+	case 1:
+		pieces = append(pieces, pick(c15EscBackslash))
+		for k := 0; k < extra; k++ {
+			pieces = append(pieces, pick(c15EscBackslash, c15EscChars, c15EscPlain))
+		}
+	case 2:
+		pieces = append(pieces, pick(c15EscChars))
+		for k := 0; k < extra; k++ {
+			pieces = append(pieces, pick(c15EscChars, c15EscPlain))
+		}
+	default:
+		for k := 0; k <= extra; k++ {
+			pieces = append(pieces, pick(c15EscLookalike, c15EscBackslash, c15EscChars, c15EscPlain))
+		}
+	}
+	rng.Shuffle(len(pieces), func(a, b int) { pieces[a], pieces[b] = pieces[b], pieces[a] })
+	var b strings.Builder
+	for k, p := range pieces {
+		if k > 0 && rng.Intn(2) == 0 {
+			b.WriteString(" ")
+		}
+		b.WriteString(p)
+	}
+	return b.String()
+}
+
+// the places of a record that c15EscRecord puts a text into; those whose name
+// starts with Feature go into the first feature
+var c15EscPlaces = []struct {
+	name string
+	set  func(s *poly.Sequence, text string)
+}{
+	{"Meta.Definition", func(s *poly.Sequence, x string) { s.Meta.Definition = x }},
+	{"Feature.Attributes value under key note", func(s *poly.Sequence, x string) {
+		if s.Features[0].Attributes == nil {
+			s.Features[0].Attributes = map[string]string{}
+		}
+		s.Features[0].Attributes["note"] = x
+	}},
+	{"Sequence.Description", func(s *poly.Sequence, x string) { s.Description = x }},
+	{"Meta.Other value under key COMMENT", func(s *poly.Sequence, x string) {
+		if s.Meta.Other == nil {
+			s.Meta.Other = map[string]string{}
+		}
+		s.Meta.Other["COMMENT"] = x
+	}},
+	{"Feature.Description", func(s *poly.Sequence, x string) { s.Features[0].Description = x }},
+	{"Meta.Name", func(s *poly.Sequence, x string) { s.Meta.Name = x }},
+	{"Feature.Attributes key (value v)", func(s *poly.Sequence, x string) {
+		if s.Features[0].Attributes == nil {
+			s.Features[0].Attributes = map[string]string{}
+		}
+		s.Features[0].Attributes[x] = "v"
+	}},
+	{"Meta.Other key (value v)", func(s *poly.Sequence, x string) {
+		if s.Meta.Other == nil {
+			s.Meta.Other = map[string]string{}
+		}
+		s.Meta.Other[x] = "v"
+	}},
+	{"Meta.Locus.Name", func(s *poly.Sequence, x string) { s.Meta.Locus.Name = x }},
+	{"Meta.Organism", func(s *poly.Sequence, x string) { s.Meta.Organism = x }},
+	{"Reference.Title of the first reference", func(s *poly.Sequence, x string) {
+		if len(s.Meta.References) == 0 {
+			s.Meta.References = append(s.Meta.References, poly.Reference{Index: "1"})
+		}
+		s.Meta.References[0].Title = x
+	}},
+	{"Reference.Authors of the first reference", func(s *poly.Sequence, x string) {
+		if len(s.Meta.References) == 0 {
+			s.Meta.References = append(s.Meta.References, poly.Reference{Index: "1"})
+		}
+		s.Meta.References[0].Authors = x
+	}},
+	{"Feature.Name", func(s *poly.Sequence, x string) { s.Features[0].Name = x }},
+	{"Feature.Type", func(s *poly.Sequence, x string) { s.Features[0].Type = x }},
+	{"Feature.GbkLocationString", func(s *poly.Sequence, x string) { s.Features[0].GbkLocationString = x }},
+	{"Sequence.SequenceHash", func(s *poly.Sequence, x string) { s.SequenceHash = x }},
+}
+
+// c15EscBare is the number of leading records of the escape-text part that are
+// bare: nothing but a four-letter sequence, one span feature when the place is
+// in a feature, and the ONE text.
+const c15EscBare = 4 * 16 * 2
+
+// c15EscRecord gives a record with text that JSON has to escape, or that looks
+// like an escape, in one to three places (the first place goes round with i,
+// the others are drawn; the four variants of c15EscText go round with i as
+// well). The first c15EscBare records are bare, the others small generated
+// records (0..2 references, 1..2 features, location depth 0..1, sequence length
+// 1..30). class is c15EscClass of the texts put in.
+func c15EscRecord(rng *rand.Rand, i int) (rec *poly.Sequence, what, class string) {
+	variant := i % 4
+	first := (i / 4) % len(c15EscPlaces)
+	places := []int{first}
+	if i < c15EscBare {
+		rec = &poly.Sequence{Sequence: "ACGT"}
+		if strings.HasPrefix(c15EscPlaces[first].name, "Feature") {
+			rec.AddFeature(&poly.Feature{Type: "misc_feature", SequenceLocation: poly.Location{Start: 0, End: 4}})
+		}
+		what = "bare record (sequence ACGT"
+		if len(rec.Features) > 0 {
+			what += ", one feature spanning it"
+		}
+		what += ", every other field zero)"
+	} else {
+		sh := c15Shape{refs: rng.Intn(3), refsNil: rng.Intn(2) == 0, other: rng.Intn(4), features: 1 + rng.Intn(2), attrs: rng.Intn(4), depth: rng.Intn(2), seqLen: 1 + rng.Intn(30)}
+		rec = c15Record(rng, sh)
+		for _, p := range rng.Perm(len(c15EscPlaces))[:rng.Intn(3)] { // 0..2 further places, all different
+			if p != first {
+				places = append(places, p)
+			}
+		}
+		what = fmt.Sprintf("generated record with %d references, %d features, sequence length %d", len(rec.Meta.References), len(rec.Features), len(rec.Sequence))
+	}
+	var texts, said []string
+	for k, p := range places {
+		v := variant
+		if k > 0 {
+			v = rng.Intn(4)
+		}
+		x := c15EscText(rng, v)
+		c15EscPlaces[p].set(rec, x)
+		texts = append(texts, x)
+		said = append(said, c15EscPlaces[p].name+" = "+strconv.Quote(x))
+	}
+	return rec, fmt.Sprintf("escape-text record #%d: %s; texts put in (shown as Go string literals): %s", i, what, strings.Join(said, ", ")), c15EscClass(texts)
+}
+
+// words for the generated GenBank and GFF text: like c15EscLookalike,
+// c15EscBackslash and c15EscChars, but without blanks and control characters
+// (the layout of both formats), double quotes (GenBank quoting) and ; = ,
+// (GFF attribute syntax)
+var c15EscWords = []string{`\u003c`, `\u003e`, `\u0026`, `a\u003cb`, `\\u0026amp`, `5'\u003e3'`, `\n`, `\\`, `C:\dir\file`, `end\`, "<", ">", "&", "<b>&</b>", "&amp", "a<b>c&d"}
+
 // c15Diff gives the path of the first difference between two values, "" when
 // equal. nil and empty slices/maps are equal here (c15ShapeDiff is the second
 // pass that tells them apart); ParentSequence is not compared.
@@ -678,8 +876,10 @@ func c15CheckRecord(vr, vl *verifRun, dir string, w int, sh c15Shape, rng *rand.
 
 // c15RoundTrip writes rec to path, reads the path back and judges both
 // clauses. afterWrite (may be nil) runs between Write and Read. historyClass,
-// when not empty, says that path held another document before (see
-// c15CheckHistory) and names that shape: it becomes the class of any failure.
+// when not empty, names the shape that sets the case apart from a plain round
+// trip - the path held another document before (see c15CheckHistory), or the
+// record has text that JSON must escape in places named in what (see
+// c15EscRecord): it becomes the class of any failure.
 func c15RoundTrip(vr, vl *verifRun, rec *poly.Sequence, path, what, historyClass string, afterWrite func()) {
 	var want []string // independent evaluation of every feature on the original
 	for _, f := range rec.Features {
@@ -897,10 +1097,10 @@ func c15CheckHistory(t *testing.T, vr, vl *verifRun, dir string, w int, rng *ran
 var c15Plain = []string{"alpha", "beta-lactamase", "ori", "lacZ", "hypothetical protein", "T7 promoter", "rep_origin", "Saccharomyces cerevisiae",
 	"synthetic construct", "cloning vector", "5' UTR", "note with, comma; semicolon", "100%", "caf\u00e9 au lait", "\u03b2-galactosidase", "x"}
 
-func c15Phrase(rng *rand.Rand, words int) string {
+func c15PhraseOf(rng *rand.Rand, pool []string, words int) string {
 	var parts []string
 	for i := 0; i < words; i++ {
-		parts = append(parts, c15Plain[rng.Intn(len(c15Plain))])
+		parts = append(parts, pool[rng.Intn(len(pool))])
 	}
 	return strings.Join(parts, " ")
 }
@@ -964,7 +1164,13 @@ func c15Pad(s string, n int) string {
 // exactly one qualifier each (Build walks maps in an order of its own on the
 // pinned tree, which is C03's subject), values on one or several lines,
 // locations on one or two lines, origin lines of 60.
-func c15GenBank(rng *rand.Rand) string {
+func c15GenBank(rng *rand.Rand) string { return c15GenBankOf(rng, c15Plain) }
+
+// c15GenBankOf is c15GenBank with the words of every free text (definition,
+// keywords, source, organism, authors, titles, comment, qualifier values) taken
+// from pool.
+func c15GenBankOf(rng *rand.Rand, pool []string) string {
+	c15Phrase := func(rng *rand.Rand, words int) string { return c15PhraseOf(rng, pool, words) }
 	n := 1 + rng.Intn(400)
 	seq := strings.ToLower(c15DNA(rng, n))
 	var b strings.Builder
@@ -1062,7 +1268,12 @@ func c15GenBank(rng *rand.Rand) string {
 // lines of nine tab-separated columns with 1..4 attributes, optional ###,
 // FASTA section in lines of 50..80 letters (no line of a single letter: that is
 // C14's subject).
-func c15GFF(rng *rand.Rand) string {
+func c15GFF(rng *rand.Rand) string { return c15GFFOf(rng, c15Plain) }
+
+// c15GFFOf is c15GFF with the words of the attribute values and of the FASTA
+// header taken from pool.
+func c15GFFOf(rng *rand.Rand, pool []string) string {
+	c15Phrase := func(rng *rand.Rand, words int) string { return c15PhraseOf(rng, pool, words) }
 	n := 2 + rng.Intn(500)
 	width := 50 + rng.Intn(31)
 	if n%width == 1 {
@@ -1214,7 +1425,9 @@ func TestVerifC15(t *testing.T) {
 	longLens, longPer := []int{70000, 200000}, 4
 	nHistory, nName := 400, 800
 	nWrap := 1800
+	nEsc, nGbEsc, nGffEsc := 1600, 500, 500
 	if verifThorough() {
+		nEsc, nGbEsc, nGffEsc = 80000, 25000, 25000
 		nWrap = 90000
 		nName = 40000
 		nRandom, nGb, nGff = 600000, 400000, 400000
@@ -1228,7 +1441,7 @@ func TestVerifC15(t *testing.T) {
 	defer os.RemoveAll(dir)
 	seed := verifSeed()
 
-	content := "every Meta, Locus, Reference, Feature and Sequence field filled from a pool of ASCII, punctuation (quotes, backslash, <, &, tab, newline, NUL, U+2028) and non-ASCII text (Latin-1, CJK, Greek, 4-byte code points, combining marks; valid UTF-8 only, JSON text cannot carry anything else), ints incl. 0, negative and 63-bit; " +
+	content := "every Meta, Locus, Reference, Feature and Sequence field filled from a pool of ASCII, punctuation (quotes, backslash, <, &, tab, newline, NUL, U+2028; backslashes in front of escape letters and the other control characters in the escape-text part) and non-ASCII text (Latin-1, CJK, Greek, 4-byte code points, combining marks; valid UTF-8 only, JSON text cannot carry anything else), ints incl. 0, negative and 63-bit; " +
 		"location structures valid for the sequence, Join nodes of 2..4 operands nested to depth 4 (other kinds of node with operands in the wrapper-node part), Complement and both partial flags on any node, SubLocations of every leaf, at every depth 0..4 of the tree, absent (nil) or empty (non-nil, length 0) with equal chance; sequences over ACGT"
 	nilEmpty := "absent and empty collections: a collection given as ABSENT (nil; null in the file) must come back absent and one given as EMPTY (non-nil, length 0; [] or {} in the file) must come back empty - the JSON form tells the two apart and with the tags of the code base both survive - for Meta.References, Meta.Other, Feature.Attributes of every feature and Location.SubLocations at every depth; " +
 		"judged on a value that is equal in every field otherwise, classes empty-collection-became-absent and absent-collection-became-empty in every part of the domain; " +
@@ -1242,6 +1455,12 @@ func TestVerifC15(t *testing.T) {
 		"wrapper-node part: " + strconv.Itoa(nWrap) + " seeded records (0..2 references, 1..3 features, sequence length 1..60, location trees to depth 4) with the kinds of node with operands that the other parts never draw: a plain node (neither Join nor Complement, Start = End = 0, partial flags drawn) around ONE operand at the root or below it, chains of such nodes, ONE operand under a node carrying the Join flag, the Complement flag, both or bounds of its own, and 2..3 operands under a node without the Join flag; " +
 		"six variants in turn: (1) a plain node at the root of the first feature around a span or a tree of Join nodes, (2) a plain node at the root of every feature around any tree, (3) plain nodes below the root only, (4) single operands under flagged or bounded nodes, (5) several operands without Join flag, (6) all kinds anywhere; every node must come back with its flags, bounds and operands, and the feature must report the concatenation of its operands as before; " +
 		"a difference inside a location or in a feature's sequence is classed by the first of these kinds the record contains: wrapper-node-at-root, wrapper-node-inside, single-operand-node-with-flags-or-bounds, several-operands-without-join-flag; " +
+		"escape-text part: " + strconv.Itoa(nEsc) + " seeded records with text that the JSON form has to escape, or that LOOKS like an escape, put into one to three places: the first place goes round Meta.Definition, an attribute value, Sequence.Description, a Meta.Other value, Feature.Description, Meta.Name, an attribute KEY, a Meta.Other KEY, Locus.Name, Organism, Title and Authors of the first reference, Feature.Name, Feature.Type, GbkLocationString, SequenceHash, up to two further places are drawn; " +
+		"the first " + strconv.Itoa(c15EscBare) + " records are bare (sequence ACGT, one span feature if the place is in a feature, the one text, every other field zero), the others generated (0..2 references, 1..2 features, location depth 0..1, sequence length 1..30); " +
+		"a text is 1..4 pieces in random order joined by nothing or one blank, the pieces being (i) a literal backslash directly in front of u003c, u003e or u0026 in either letter case - the text of the escapes encoding/json itself writes for <, > and & - also behind a second and third backslash, several in one piece, inside a sentence with double quotes, " +
+		"(ii) a backslash in front of n, t, r, b, f, /, a double quote, an apostrophe, u, u00, u0000, u2028, u003, u003d, x3c, U0000003C, one to three backslashes alone and a backslash at the end of the text, a Windows path, " +
+		"(iii) the characters JSON escapes: <, >, &, markup made of them (<1..>206, &amp;, <b>&</b>, </script>), double quotes, apostrophe, tab, newline, CR LF, NUL, U+0001, backspace, form feed, escape, U+001F, DEL, U+0085, U+2028, U+2029, (iv) neighbours that need no escape (words, the empty text, a blank, u003c / u0026 / 003e without backslash, non-ASCII letters); " +
+		"four variants in turn for the first place: at least one piece of (i); at least one of (ii) and none of (i); at least one of (iii) and no backslash; any pieces; every text must come back equal and every feature re-linked; any failure of such a record is classed by the texts put in: text-with-backslash-escape-lookalike if one of them has a backslash directly in front of u003c / u003e / u0026, else text-with-backslash if one has a backslash, else text-with-json-escaped-characters; " +
 		"history part: " + strconv.Itoa(nHistory) + " seeded histories on ONE path (fresh at the start of each history): three different documents (0..3 references, 0..4 features or none, sequence length 1..300) are written to it one after the other and the path is read after every write, every Read must give the document written last; " +
 		"five variants in turn: (a) unrelated records brought to exactly the same byte size (ASCII letters appended to Description) with the modification time set to the same whole second by os.Chtimes after every write, (b) same byte size, time left to the file system, (c) byte size different from one write to the next, time pinned, " +
 		"(d) a record, then the same record with every base of its sequence replaced, then the first record again, same size, time pinned, (e) size and time as they come; size and time are confirmed with os.Stat before each Read; a failure at the 2nd or 3rd step is classed path-reused-same-size-and-mtime (a, d), path-reused-same-size (b), path-reused-same-mtime (c), path-reused (e); " +
@@ -1252,9 +1471,11 @@ func TestVerifC15(t *testing.T) {
 		"same records; after Read and after Parse on the file's bytes every feature has a parent holding the returned record's sequence and GetSequence equals both its value before serialisation and an independent evaluation of the location on the original sequence; non-trivial = has a feature; "+axes)
 	vg := newVerifRun("C15", "io/polyjson/post/convert-genbank",
 		strconv.Itoa(nGb)+" seeded GenBank records laid out by a generator in the test (length 1..400, every header keyword, continuation lines, 0..3 references, at most one COMMENT block, 0..6 features with exactly one qualifier each so that Build's map walks cannot reorder anything, one- and two-line locations of the kinds span / complement / join of spans / join of two complements / complement(join), partial markers, some non-ASCII words): "+
+			"plus "+strconv.Itoa(nGbEsc)+" further seeded records from the same generator whose words (definition, keywords, source, organism, authors, titles, comment, qualifier values) come from the same pool extended by "+strconv.Itoa(len(c15EscWords))+" words with a literal backslash in front of u003c / u003e / u0026 / n / another backslash / letters, a backslash at the end, and the characters <, >, & ("+strings.Join(c15EscWords, " ")+"; no blanks, control characters or double quotes: they belong to the layout), a difference on a file that has a backslash directly in front of u003c / u003e / u0026 is classed text-with-backslash-escape-lookalike: "+
 			"genbank.Build(polyjson.Parse(file written by polyjson.Write(genbank.Parse(x)))) equals genbank.Build(genbank.Parse(x)) byte for byte; non-trivial = parser output has a feature")
 	vf := newVerifRun("C15", "io/polyjson/post/convert-gff",
 		strconv.Itoa(nGff)+" seeded GFF3 files laid out by a generator in the test (length 2..501, region start 1 or offset, 0..8 features with 1..4 attributes, blank lines, optional ###, FASTA lines of 50..80 letters and never a 1-letter line; attribute keys from ID, Name, Parent, Note, Dbxref, product; every 25th file has its ##sequence-region moved to start at a random odd coordinate in 2^53+1..2^54 keeping its length, a difference there is classed integer-beyond-2-53): "+
+			"plus "+strconv.Itoa(nGffEsc)+" further seeded files from the same generator whose attribute values and FASTA header words come from the same pool extended by the "+strconv.Itoa(len(c15EscWords))+" words with backslashes and <, >, & listed for the GenBank clause, a difference on a file that has a backslash directly in front of u003c / u003e / u0026 is classed text-with-backslash-escape-lookalike: "+
 			"gff.Build(polyjson.Parse(file written by polyjson.Write(gff.Parse(x)))) equals gff.Build(gff.Parse(x)) byte for byte; non-trivial = parser output has a feature")
 	for _, v := range []*verifRun{vr, vl, vg, vf} {
 		v.Sampled()
@@ -1288,10 +1509,18 @@ func TestVerifC15(t *testing.T) {
 			longShapes = append(longShapes, sh)
 		}
 	}
+	escPool := append(append([]string{}, c15Plain...), c15EscWords...)
+	escFileClass := func(text string) string {
+		if c15EscLookalikeRe.MatchString(text) {
+			return "text-with-backslash-escape-lookalike"
+		}
+		return ""
+	}
 	const workers = 16
 	var wg sync.WaitGroup
 	var mu sync.Mutex
 	skippedGb, skippedGff := 0, 0
+	skippedGbEsc, skippedGffEsc := 0, 0
 	for w := 0; w < workers; w++ {
 		wg.Add(1)
 		go func(w int) {
@@ -1312,6 +1541,24 @@ func TestVerifC15(t *testing.T) {
 			for i := w; i < nWrap; i += workers {
 				rec, what := c15WrapperRecord(rngWrap, i)
 				c15RoundTrip(vr, vl, rec, filepath.Join(dir, "c15-"+strconv.Itoa(w)+".json"), fmt.Sprintf("%s (VERIF_SEED %d)", what, seed), "", nil)
+			}
+			rngEsc := rand.New(rand.NewSource(seed*7919 + 5000 + int64(w))) // own stream as well
+			for i := w; i < nEsc; i += workers {
+				rec, what, class := c15EscRecord(rngEsc, i)
+				c15RoundTrip(vr, vl, rec, filepath.Join(dir, "c15-"+strconv.Itoa(w)+".json"), fmt.Sprintf("%s (VERIF_SEED %d)", what, seed), class, nil)
+			}
+			sge, sfe := 0, 0
+			for i := w; i < nGbEsc; i += workers {
+				text := c15GenBankOf(rngEsc, escPool)
+				if c15Convert(vg, dir, w, text, escFileClass(text), genbank.Parse, genbank.Build, func(s poly.Sequence) bool { return len(s.Features) > 0 }) {
+					sge++
+				}
+			}
+			for i := w; i < nGffEsc; i += workers {
+				text := c15GFFOf(rngEsc, escPool)
+				if c15Convert(vf, dir, w, text, escFileClass(text), gff.Parse, gff.Build, func(s poly.Sequence) bool { return len(s.Features) > 0 }) {
+					sfe++
+				}
 			}
 			rngName := rand.New(rand.NewSource(seed*7919 + 3000 + int64(w))) // own stream as well
 			for i := w; i < nName; i += workers {
@@ -1343,6 +1590,8 @@ func TestVerifC15(t *testing.T) {
 			mu.Lock()
 			skippedGb += sg
 			skippedGff += sf
+			skippedGbEsc += sge
+			skippedGffEsc += sfe
 			mu.Unlock()
 		}(w)
 	}
@@ -1350,8 +1599,11 @@ func TestVerifC15(t *testing.T) {
 	if skippedGb*10 > nGb || skippedGff*10 > nGff {
 		t.Fatalf("harness: the readers refused %d of %d GenBank and %d of %d GFF generated files; the generators are outside what the readers take", skippedGb, nGb, skippedGff, nGff)
 	}
-	if skippedGb+skippedGff > 0 {
-		t.Logf("generated files on which the format reader or writer panicked (not parser outputs, left to C01/C02/C14): genbank %d, gff %d", skippedGb, skippedGff)
+	if skippedGbEsc*10 > nGbEsc || skippedGffEsc*10 > nGffEsc {
+		t.Fatalf("harness: the readers refused %d of %d GenBank and %d of %d GFF generated files with backslash and markup words; the generators are outside what the readers take", skippedGbEsc, nGbEsc, skippedGffEsc, nGffEsc)
+	}
+	if skippedGb+skippedGff+skippedGbEsc+skippedGffEsc > 0 {
+		t.Logf("generated files on which the format reader or writer panicked (not parser outputs, left to C01/C02/C14): genbank %d, gff %d; with backslash and markup words: genbank %d, gff %d", skippedGb, skippedGff, skippedGbEsc, skippedGffEsc)
 	}
 	vr.Done()
 	vl.Done()
